@@ -79,6 +79,10 @@ def error(name, package, namespace, code, safe_args, unsafe_args):
 
 
 SAFE_MARKER = external("Safe", "com.palantir.logsafe", prim("ANY"))
+# look-alikes that are *not* the legacy safe tag / marker
+NOISE_TAGS = ["unsafe", "Safe", "SAFE", "safe ", "log-safe", "safety", "not-safe", "incubating", "safe-to-retry"]
+NOISE_MARKERS = [external("Unsafe", "com.palantir.logsafe", prim("ANY")), external("Safe", "com.example.logsafe", prim("ANY")),
+                 external("SafeArg", "com.palantir.logsafe", prim("ANY")), external("safe", "com.palantir.logsafe", prim("ANY"))]
 
 
 def arg(name, t, kind, param_id=None, safety=None, markers=None, tags=None):
